@@ -233,6 +233,7 @@ type PathQuery struct {
 	Relevant          func(cond ssa.Value) bool    // which branch conditions are recorded (nil: all)
 	Cut               func(ssa.Instruction) bool   // a path silently ends at such an instruction (not recorded)
 	Track             []ssa.Value                  // values whose per-path resolution the rule will ask for (their phis join the state key)
+	NoSummaries       bool                         // do not expand literals about helper results into the helper's own guards
 	ContinueAfterSink bool                         // record the state at a sink and keep walking (default: the path ends at the sink)
 	KeepLoopFacts     bool                         // do not forget loop-local facts on back edges (for single-iteration queries)
 	MaxStates         int                          // default 200000
@@ -302,6 +303,10 @@ func (q *PathQuery) Run() ([]*PathState, error) {
 			if q.Event != nil && (st.armed || q.EventsBeforeFrom) {
 				if tag := q.Event(in); tag != "" {
 					st.Events = addEvent(st.Events, Event{in, tag})
+				} else if call, ok := in.(*ssa.Call); ok && !q.NoSummaries {
+					for _, e := range mustEvents(call, q.Event, 0) {
+						st.Events = addEvent(st.Events, e)
+					}
 				}
 			}
 			if !st.armed && in == q.From {
@@ -397,7 +402,7 @@ func (q *PathQuery) Run() ([]*PathState, error) {
 func addEvent(evs []Event, e Event) []Event {
 	out := make([]Event, 0, len(evs)+1)
 	for _, x := range evs {
-		if x.Instr != e.Instr {
+		if x.Instr != e.Instr || x.Tag != e.Tag {
 			out = append(out, x)
 		}
 	}
@@ -536,7 +541,22 @@ func (q *PathQuery) assume(st *PathState, t *ssa.If, outcome bool) (*PathState, 
 	if q.Relevant != nil && !q.Relevant(t.Cond) && !q.Relevant(cond) {
 		return st, true
 	}
-	ns := &PathState{Lits: append(append([]Lit{}, st.Lits...), lit), Events: st.Events, Blocks: st.Blocks, phi: st.phi, mem: st.mem, loads: st.loads, armed: st.armed, ArmedAt: st.ArmedAt}
+	nl := append(append([]Lit{}, st.Lits...), lit)
+	if !q.NoSummaries {
+		for _, il := range impliedByLit(lit) {
+			dup := false
+			for _, l := range nl {
+				if sameTest(l, il) {
+					dup = true
+					break
+				}
+			}
+			if !dup {
+				nl = append(nl, il)
+			}
+		}
+	}
+	ns := &PathState{Lits: nl, Events: st.Events, Blocks: st.Blocks, phi: st.phi, mem: st.mem, loads: st.loads, armed: st.armed, ArmedAt: st.ArmedAt}
 	return ns, true
 }
 
@@ -657,7 +677,7 @@ func stateKey(b *ssa.BasicBlock, idx int, st *PathState, condPhis map[*ssa.Phi]b
 	sb.WriteString(strings.Join(lits, ","))
 	sb.WriteString("|")
 	for _, e := range st.Events {
-		fmt.Fprintf(&sb, "%p,", e.Instr)
+		fmt.Fprintf(&sb, "%p%s,", e.Instr, e.Tag)
 	}
 	sb.WriteString("|")
 	var ph []string
